@@ -198,7 +198,7 @@ def loadFilteredFA (e : EnfP) (fa : FASt) (flt : Option Flt.Filter) (clear : Boo
     | some f => Flt.keptLines fa.text f
   let (st1, okL) := if tooLong then (st0, false) else loadFileLinesPartial b.md st0 lines
   let fa' : FASt := match flt with
-    | none => { fa with filtered := false }             -- LoadPolicy clears the flag whatever happens
+    | none => { fa with filtered := if okL then false else fa.filtered }   -- a completed full load ends the filtered state
     | some _ => { fa with filtered := if okL then true else fa.filtered }
   if !okL then
     some ({ e with base := { b0 with p := st1.1, g := st1.2 } }.syncCache, fa', false)
